@@ -72,7 +72,7 @@ mut('close-join-before-abort', 'File.cpp', [["        /* finalize uncompressedFi
 mut('eos-inside-try', 'File.cpp', [["                file->m_uncompressedFileThreadRunning = false;\n        }\n    } catch (...) {\n        file->m_uncompressedFileThreadException = std::current_exception();\n    }\n\n    /* set end of file (on every way out, otherwise the consumer waits forever) */\n    file->m_readWriteQueue.setFileSize(file->m_readWriteQueue.tellp());\n}",
                                    "                file->m_uncompressedFileThreadRunning = false;\n        }\n\n        /* set end of file */\n        file->m_readWriteQueue.setFileSize(file->m_readWriteQueue.tellp());\n    } catch (...) {\n        file->m_uncompressedFileThreadException = std::current_exception();\n    }\n}"]],
     ['C10'], ['K5|File::uncompressedFileReadThread|m_readWriteQueue|handler:catch(...)'], 'worker leaves through catch(...) without declaring end of stream')
-mut('container-write-no-wait', 'UncompressedFile.cpp', [["    /* wait for free space */\n    tellgChanged.wait(lock, [&] {\n        return\n        m_abort ||\n        static_cast<uint32_t>(m_tellp - m_tellg) < m_bufferSize;\n    });\n\n    /* append logContainer */", "    /* append logContainer */"]],
+mut('container-write-no-wait', 'UncompressedFile.cpp', [["    /* wait for free space */\n    tellgChanged.wait(lock, [&] {\n        return\n        m_abort ||\n        ((m_tellp - m_tellg) < m_bufferSize);\n    });\n\n    /* append logContainer */", "    /* append logContainer */"]],
     ['C12'], ['P2|UncompressedFile::write|void (const std::shared_ptr'], 'no back-pressure when appending inflated containers')
 mut('drop-dropolddata', 'File.cpp', [["    if (obj->objectType != ObjectType::Unknown115)\n        currentObjectCount++;\n\n    /* push data into readWriteQueue */\n    m_readWriteQueue.write(obj);\n\n    /* drop old data */\n    m_uncompressedFile.dropOldData();\n", "    if (obj->objectType != ObjectType::Unknown115)\n        currentObjectCount++;\n\n    /* push data into readWriteQueue */\n    m_readWriteQueue.write(obj);\n"]],
     ['C12'], ['P3|File::uncompressedFile2ReadWriteQueue'], 'consumed containers are never released')
